@@ -185,4 +185,18 @@ CHECKS = {
         assumptions=["tips returned by WaitForNewBlocks exceed the last seen tip", "start <= first tip + 1", "fixed chain"],
         trusted_base=["hand model Model/Downloader.lean"],
     ),
+    "C16": dict(
+        modules=["AggkitModel.Properties.C16"],
+        scenarios=[dict(name="gersync")],
+        generated=[],
+        leanchecker=True,
+        level_text="Proved in Lean 4 (PP mode): C16_table — for every L2 chain with at most one GER event per block and EVERY sequence of polls (tips advancing by any amount, repeated or lagging) the table equals the fold of the insert/remove events of all blocks up to the furthest tip seen; "
+                   "firstAfter_spec / C16_query — the query returns an injected, not-removed root with the smallest index at or after X and finds one whenever one exists. PARTIAL: reorgs are outside the theorems; a removal that is reorged away is not undone (KNOWN-FINDING F4, replayed). "
+                   "Tie: the real PP downloader (real log parsing through the contract binding, L1 leaf lookups that lag) and the real FEP downloader (eth_call on the L2 GER map) feeding the real processor as the driver does, over a scripted L2 client whose tip jumps by 1-12 blocks between polls, with restarts and reorgs, vs the compiled model; "
+                   "monitor = the property evaluated on the implementation's answers. Genuine defect found and fixed in /repo: F12 (the PP downloader queried only the new tip block).",
+        level_note="Trusted: Lean kernel; model/code correspondence (generator-bounded); FEP mode is covered by correspondence + monitor only (no theorem); restarts are covered by correspondence (the theorems are for one downloader run).",
+        rule="seeded worlds: chain growing by 1-12 blocks between polls, 35% of blocks with a GER event (25% removals in two thirds of the worlds), 20% of insertions whose L1 leaf is indexed late, restarts 20%, reorgs 12%; every fourth world in FEP mode; queries for boundary and random indices after each poll; distinct non-trivial = distinct (world, poll) pairs",
+        assumptions=["at most one GER event per L2 block (the table's primary key)", "fixed chain between reorgs"],
+        trusted_base=["hand model Model/LastGER.lean"],
+    ),
 }
